@@ -280,6 +280,11 @@ template <class G, class F> void fill(G &g, Rng &r, unsigned n, F add) {
         VertexIndex j = r.chance(1, 8) ? i : r.u(n);
         add(g, i, j, t);
     }
+    if (n >= 40) { // scale: a hub joined to most vertices (long neighbour lists, wide BFS levels, many heap entries)
+        VertexIndex hub = r.u(n);
+        for (unsigned t = 0; t < n; ++t)
+            if (r.chance(4, 5)) add(g, hub, t, m + t);
+    }
 }
 
 struct Shared {
@@ -351,6 +356,10 @@ template <class G, class B, class O> void caseFor(Reporter &R, const char *cls, 
     Rng r = caseRng(R.args.seed, hashStr(std::string(cls) + "g"), sub);
     G g(0), other(0);
     unsigned n = 6 + r.u(7);
+    if (sub % 4 == 3) {
+        n = 40 + r.u(61);
+        opsPerThread = std::max(8u, opsPerThread / 4);
+    }
     build(g, r, n);
     if (sub % 2) other = g;
     else build(other, r, n);
@@ -375,6 +384,7 @@ int main(int argc, char **argv) {
         unsigned k = (unsigned)(idx % 8);
         unsigned T = threadCounts[(idx / 8) % 5];
         uint64_t sub = idx / 40;
+        if (sub % 4 == 3) R.count("shared_graphs_of_40_to_100_vertices_with_a_hub");
         desc = "class#" + std::to_string(k) + " threads=" + std::to_string(T) + " sub=" + std::to_string(sub);
         R.count("cases_with_" + std::to_string(T) + "_threads");
         switch (k) {
